@@ -389,6 +389,7 @@ def oracle_construct(c):
 
     result = cont
     err = None
+    extra_fail = None
     try:
         if path == "constructor":
             result = cls(wrap(objs))
@@ -424,6 +425,21 @@ def oracle_construct(c):
                     args = [cls(head)] + tail
             result = cls.from_multiple(*args)
             n0 = 0
+            if not has_bad and len(objs) >= 2 and not any(isinstance(x, PLSSDesc) for x in objs) and not any(h == "empty_str" for h, _ in c["good"]):
+                # one list object named more than once, and short-lived lists made on the fly: every mention counts
+                pair = [objs[0], objs[1]]
+                shapes = {"same_list_twice": lambda: cls.from_multiple(pair, objs[-1], pair),
+                          "same_list_at_two_depths": lambda: cls.from_multiple([pair, objs[-1]], pair),
+                          "list_repeated": lambda: cls.from_multiple([pair] * 3),
+                          "temporary_lists": lambda: cls.from_multiple([o] for o in (objs[0], objs[1], objs[0], objs[-1]))}
+                wants = {"same_list_twice": pair + [objs[-1]] + pair, "same_list_at_two_depths": pair + [objs[-1]] + pair, "list_repeated": pair * 3,
+                         "temporary_lists": [objs[0], objs[1], objs[0], objs[-1]]}
+                for shape, fn in shapes.items():
+                    got_r = [TRS(x).trs if isinstance(x, str) else x.trs for x in fn()]
+                    want_r = [TRS(o).trs if isinstance(o, str) else o.trs for o in wants[shape]]
+                    if got_r != want_r:
+                        extra_fail = Failure(f"elements_missing:from_multiple_{shape}", f"{kind}.from_multiple with {shape}: holds {got_r}, supplied {want_r}", path=path, container=kind)
+                        break
         elif path == "from_multiple_nested":
             nested = list(objs)
             for _ in range(c["nest"]):
@@ -468,6 +484,8 @@ def oracle_construct(c):
             want = [TRS(w).trs for w in want]
             if [x.trs for x in new] != want:
                 fails.append(Failure(f"elements_missing:{path}", f"{label}: holds {[x.trs for x in new]}, supplied {want}", **ctx))
+    if extra_fail is not None:
+        fails.append(extra_fail)
     _last["mixed"] = False
     return fails
 
@@ -566,6 +584,21 @@ def oracle_independence(c):
             fails.append(Failure(f"aliased:{how}", f"{label}: {op} on the {c['side']} list changed the other list from {[t for _, t in other_before]} to {[x.trs for x in other]}",
                                  op=op, side=c["side"], **ctx))
             return fails
+    if kind == "TRSList" and len(src_objs) >= 1 and desc is None:
+        # a TRSList makes its own TRS objects from what it is given; changing one of them in place (documented setters) changes that
+        # one element only: not its equal-valued neighbours, and not what a list built later from the same strings holds
+        strings = [o if isinstance(o, str) else o.trs for o in src_objs]
+        strings = [TRS(x).trs for x in strings] * 2
+        first = TRSList(strings)
+        first[0].set_twprgesec(155, 98, 1) if c["pos"] % 2 else setattr(first[0], "trs", "155n98w01")
+        if [x.trs for x in first[1:]] != strings[1:]:
+            fails.append(Failure("element_change_spreads", f"TRSList({strings}): after element 0 was set to 155n98w01 the list reads {[x.trs for x in first]}", **ctx))
+        for how2, later in (("constructor", TRSList(strings)), ("from_multiple", TRSList.from_multiple(strings[:1], strings[1:])), ("extend", TRSList())):
+            if how2 == "extend":
+                later.extend(strings)
+            if [x.trs for x in later] != strings:
+                fails.append(Failure("later_list_sees_earlier_change", f"after an element of an earlier TRSList was changed in place, TRSList by {how2} from {strings} holds {[x.trs for x in later]}", **ctx))
+                break
     if desc is not None and c["side"] == "built" and snapshot(desc.tracts) != (want_src if kind == "TractList" else snapshot(desc.tracts)):
         fails.append(Failure("aliased:plss_tracts", f"{label}: the description's own tracts changed", **ctx))
     return fails
